@@ -468,6 +468,18 @@ func runC12(r *vk.Run) {
 		rng := c.Rng
 		steps := rng.Range(3, 6)
 		recs := genBinRecs(rng, steps, vk.Pick(rng, modes))
+		// sums are operands here: only values whose sums are exact in any order of addition (dyadic fractions),
+		// so that `%` and the comparisons, which are not continuous, see the one value a sum has
+		for i := range recs {
+			switch recs[i].Line {
+			case "v=0.3":
+				recs[i].Line = "v=0.25"
+			case "v=0.7":
+				recs[i].Line = "v=0.75"
+			case "v=2.1":
+				recs[i].Line = "v=2.5"
+			}
+		}
 		env := &MEnv{Recs: recs, Msg: env0.Msg, UnwrapKeeps: env0.UnwrapKeeps, CmpFalse: env0.CmpFalse, CmpFalseBool: env0.CmpFalseBool}
 		left := MExpr(c12Leaf("l|both"))
 		vec := func() MExpr { return &VectorFn{V: vk.Pick(rng, []float64{2, 0, 1, 3, 0.5, 10, 5})} } // vector() takes an unsigned number
